@@ -211,6 +211,29 @@ EdnsMsgs == { Hdr(<<32768, 1, 0, 0, 1>>) \o <<1, 97, 0, 0, 1, 0, 1>>
               c \in {0, 512, 65535}, hi \in {0, 256, 1, 4097, 5888}, lo \in {0, 32768, 32769},
               o \in {<<>>, OneOpt(10, F(8, 1))} }
 
+\* Family K: the boundary values of computations that accessors of parsed
+\* records perform (key tags, digest lengths, flag tests): DNSKEY/CDNSKEY by
+\* algorithm x key length, DS/CDS by digest type x digest length, SSHFP, TLSA
+KeyRDs == { <<fl[1], fl[2], 3, alg>> \o F(n, 200) :
+              fl \in {<<1, 1>>, <<0, 128>>}, alg \in {0, 1, 5, 8, 13, 15, 253}, n \in {0, 1, 2, 3, 4, 5, 64} }
+DsRDs == { <<255, 255, 8, dt>> \o F(n, 9) : dt \in {0, 1, 2, 4}, n \in {0, 1, 19, 20, 21, 32, 48} }
+FpRDs == { <<a, b>> \o F(n, 9) : a \in {0, 1, 4}, b \in {0, 1, 2}, n \in {0, 20, 32} }
+            \cup { <<a, b, c>> \o F(n, 9) : a \in {0, 3}, b \in {0, 1}, c \in {0, 1, 2}, n \in {0, 32} }
+KCases == { <<48, rd>> : rd \in KeyRDs } \cup { <<60, rd>> : rd \in KeyRDs }
+          \cup { <<43, rd>> : rd \in DsRDs } \cup { <<59, rd>> : rd \in DsRDs }
+          \cup { <<44, rd>> : rd \in FpRDs } \cup { <<52, rd>> : rd \in FpRDs }
+
+\* Family C: pointer chains in the middle of a name: ordinary labels followed
+\* by a pointer whose target is itself a bare pointer (2 and 3 hops)
+ChainMsgs ==
+  LET q == <<1, 97, 0, 0, 1, 0, 1>>                                 \* a. at 12
+      r1 == <<192, 12>> \o <<0, 1, 0, 1, 0, 0, 0, 60, 0, 4, 1, 2, 3, 4>>   \* owner: bare pointer at 19
+      r2(pt) == <<3, 119, 119, 119, 192, pt>> \o <<0, 5, 0, 1, 0, 0, 0, 60>>   \* owner www + pointer, at 35
+      rd(pt2) == <<3, 102, 116, 112, 1, 120, 192, pt2>>              \* ftp.x + pointer
+  IN { Hdr(<<32768, 1, 2, 0, 0>>) \o q \o r1 \o r2(pt) \o EncU16(8) \o rd(pt2) :
+         pt \in {12, 19}, pt2 \in {12, 19, 35, 39} }
+ChainStarts == <<19, 35, 51>>
+
 TTypes == {47, 50, 51, 16, 13, 64, 65, 45, 250, 46, 35, 257, 48, 43, 33, 63, 52, 44, 61, 10, 39, 17, 14}
 HT == { <<32768, 1, 1, 0, 0>>, <<32768, 1, 0, 0, 1>> }
 
@@ -235,6 +258,8 @@ Phase1 ==
      \/ \E k \in 0..3 : sel' = <<"X", k>>
      \/ \E T \in FarTargets : sel' = <<"F", T>>
      \/ \E k \in 0..2 : sel' = <<"E", k>>
+     \/ \E h \in HT, k \in 0..3 : sel' = <<"K", h, k>>
+     \/ sel' = <<"C">>
 
 Finish(msg) == ph' = 2 /\ m' = msg /\ nw' = NWInit(msg) /\ UNCHANGED sel
 
@@ -270,6 +295,12 @@ Phase2 ==
         /\ \E d \in {0, 5, 13} :
               /\ ph' = 2 /\ m' = FarMsg(sel[2], d) /\ nw' = NWInit(m')
               /\ sel' = <<"Ldone", FarStarts(sel[2])>>
+     \/ /\ sel[1] = "K"
+        /\ \E c \in {x \in KCases : Len(x[2]) % 4 = sel[3]} :
+              Finish(Hdr(sel[2]) \o <<1, 97, 0, 0, 1, 0, 1>> \o Rec(<<192, 12>>, c[1], c[2], 0))
+     \/ /\ sel[1] = "C"
+        /\ \E cm \in ChainMsgs :
+              /\ ph' = 2 /\ m' = cm /\ nw' = NWInit(m') /\ sel' = <<"Ldone", ChainStarts>>
      \/ /\ sel[1] = "E"
         /\ \E e \in {x \in EdnsMsgs : Len(x) % 3 = sel[2]} : Finish(e)
      \/ /\ sel[1] = "J"          \* RDLENGTH covering exact / padded / cut RDATA, every type of the new API
